@@ -40,6 +40,8 @@ var wasiFuncs = []sig{
 	{wasip1.PathUnlinkFileName, []byte{wb.I32, wb.I32, wb.I32}},
 	{wasip1.PathRenameName, []byte{wb.I32, wb.I32, wb.I32, wb.I32, wb.I32, wb.I32}},
 	{wasip1.PathFilestatGetName, []byte{wb.I32, wb.I32, wb.I32, wb.I32, wb.I32}},
+	{wasip1.FdFilestatSetTimesName, []byte{wb.I32, wb.I64, wb.I64, wb.I32}},
+	{wasip1.PathFilestatSetTimesName, []byte{wb.I32, wb.I32, wb.I32, wb.I32, wb.I64, wb.I64, wb.I32}},
 }
 
 func guestBinary() []byte {
@@ -264,6 +266,30 @@ func (g *guest) fdStat(fd int32) (string, uint8, uint64) {
 	e := g.call(wasip1.FdFilestatGetName, uint64(uint32(fd)), mStat)
 	st := g.get(mStat, 64)
 	return e, st[16], binary.LittleEndian.Uint64(st[32:])
+}
+
+const fstMtim = 4 // fstflags: set mtim to the given value
+
+// fdSetTimes: fd_filestat_set_times(fd, atim ignored, mtim, MTIM)
+func (g *guest) fdSetTimes(fd int32, mtim uint64) string {
+	return g.call(wasip1.FdFilestatSetTimesName, uint64(uint32(fd)), 0, mtim, fstMtim)
+}
+
+func (g *guest) pathSetTimes(dirfd int32, path string, mtim uint64) string {
+	g.put(mPath, []byte(path))
+	return g.call(wasip1.PathFilestatSetTimesName, uint64(uint32(dirfd)), 0, mPath, uint64(len(path)), 0, mtim, fstMtim)
+}
+
+// fdMtime / pathMtime: the mtim field of the filestat
+func (g *guest) fdMtime(fd int32) (string, uint64) {
+	e := g.call(wasip1.FdFilestatGetName, uint64(uint32(fd)), mStat)
+	return e, binary.LittleEndian.Uint64(g.get(mStat, 64)[48:])
+}
+
+func (g *guest) pathMtime(dirfd int32, path string) (string, uint64) {
+	g.put(mPath, []byte(path))
+	e := g.call(wasip1.PathFilestatGetName, uint64(uint32(dirfd)), 0, mPath, uint64(len(path)), mStat)
+	return e, binary.LittleEndian.Uint64(g.get(mStat, 64)[48:])
 }
 
 func (g *guest) fdSetSize(fd int32, size int64) string {
